@@ -214,7 +214,10 @@ def rule_r1(ctx, results, facts):
     stale = [k for k in jmap if k not in used]
     if stale:
         r.notes.append("justified.json entries not needed on this tree: %d" % len(stale))
+        r.stale = sorted(stale)
     r.need("at least 100 panic-capable sites analysed", r.sites >= 100)
+    npre = len([1 for (fn, term), o in sites.items() if o["kind"] == "Precondition"])
+    r.need("both constructions of the circular window checked for dict_size >= 1 (found %d)" % npre, npre >= 2)
     return r
 
 
